@@ -8,6 +8,17 @@ claimed={
    note="Bounded: one operator application per harness (loop-free), operands of equal type plus untyped-constant operands representable in the type; float→int conversions claimed only for in-range operands (Go leaves the rest implementation-defined). Trusted: go/ssa, the engine's SSA semantics and float↔int normalisation rules (lemma-checked by selftest), z3.",
    tech="symbolic execution of Go SSA + SMT (z3 QF_BV/FP), native replay of models"),
 }
+
+TV_NOTE="Reference = the identical program text type-checked by go/types and lowered by go/ssa under GOARCH=386 sizes (int=int32), interpreted by the same engine; goat side = real tokenize(native, delegated)/parse/compile/exec interpreted symbolically. Counterexamples are replayed natively (goat: real build; Go: GOARCH=386 binary). Trusted: go/ssa, the engine's SSA semantics, z3, the Go toolchain."
+claimed["C05"]=dict(cat="translation_validation", ref="DESIGN.md §4 C05",
+   text="Every well-typed expression tree with 1–2 binary operators (18 operators, optional unary -,^,! and both printings: Go-minimal parentheses and fully parenthesised; samples with 3–4 operators) is parsed/compiled/run by goatlang's real code in the engine and compared with Go's grouping for ALL int32/bool operand values: z3 decides result equality and equal panic behaviour.",
+   note=TV_NOTE+" Bounded: operators ≤2 exhaustive (quick), ≤3 sampled; operands are variables only.", tech="symbolic execution of Go SSA + SMT equivalence against go/ssa(386) reference; native replay")
+claimed["C06"]=dict(cat="translation_validation", ref="DESIGN.md §4 C06",
+   text="Control skeletons (for 3-clause/cond/infinite, range value/key, switch tagged/tagless with default first/middle/last/absent, if/else-if/else; depth 1–2 exhaustive over kinds × branch × {break, continue, return, conditional break/continue}, depth 3 sampled) run on both sides with symbolic selectors and loop bound: every feasible combination of branch outcomes is explored and the trace output and result compared.",
+   note=TV_NOTE+" Bounded: loop bound n ≤ 2, nesting depth ≤ 3, step bound per path (exceeding = unwind, not success).", tech="symbolic execution of Go SSA + SMT path exploration against go/ssa(386) reference; native replay")
+claimed["C08"]=dict(cat="translation_validation", ref="DESIGN.md §4 C08",
+   text="Seeded scope programs redeclare x,y,z at every block-boundary kind (body, if-init, then/else, for-init, loop body, range key/value, case body; nesting ≤3; globals and parameters shadowed) with every initialiser a distinct symbolic input; a read resolving to the wrong binding yields a different term and the solver produces the distinguishing inputs.",
+   note=TV_NOTE+" Bounded: 300 (quick) / 4000 (thorough) seeded programs, loops of 2 iterations.", tech="symbolic execution of Go SSA with symbolic taint labels + SMT equivalence against go/ssa(386) reference; native replay")
 reasons={}
 checks=[]
 for pid in ALL:
